@@ -42,3 +42,32 @@ def nontrivial(case, rec):
         return any(abs(int(t)) > 1 for t in toks[2:])
     except ValueError:
         return True
+
+
+# ---- second tie: the model regenerated from the source text on every run (tools/rs2lean_typed.py) -----------------
+ASSUMPTIONS.append(
+    "second tie: new/add/sub/neg/mul/pow/inv/div of the hand-written model are proved equal (theorems src_*_eq_model) to the definitions "
+    "that tools/rs2lean_typed.py regenerates from the text of rlib/mint/src/lib.rs on every run (Generated/MintSrc.lean: casts = wrap, "
+    "+ - * / = checked); trusted there: the translator and its reading of the primitive u32/i32/i64/u64 operations, `derive`d Copy/Clone; "
+    "not translated: Readable/Writable/Display/Debug/Show impls")
+MANIFEST["technique"] += " + source-to-Lean translation of rlib/mint/src/lib.rs regenerated and proved equal to the model on every run"
+
+
+def extract(repo):
+    """Translate <repo>/rlib/mint/src/lib.rs into Generated/MintSrc.lean (written only when its text changes).  A construct
+    outside the translator's subset is a broken correspondence; the generated file then has no definitions, so the src_*
+    theorems stop compiling as well (never a stale file left in place)."""
+    import os
+    import sys
+    verif = os.path.dirname(os.path.dirname(os.path.abspath(__file__)))
+    tools = os.path.join(verif, "tools")
+    if tools not in sys.path:
+        sys.path.insert(0, tools)
+    import rs2lean_typed
+    rel = "rlib/mint/src/lib.rs"
+    fns = ["new", "Add::add", "Sub::sub", "Neg::neg", "Mul::mul", "pow", "inv", "Div::div"]
+    out = os.path.join(verif, "lean", "RlibModel", "Generated", "MintSrc.lean")
+    info, problems = rs2lean_typed.run(os.path.join(repo, rel), out, "Rlib.MintSrc", rel, ID, "Modular", fns)
+    params = {"translated_from": rel, "translated_functions": info.get("functions", []), "translated_loops": info.get("loops", []),
+              "generated_file": "lean/RlibModel/Generated/MintSrc.lean", "generated_file_rewritten": info.get("rewritten", False)}
+    return params, problems
